@@ -1,0 +1,22 @@
+//go:build verif
+
+package readline
+
+import (
+	"io"
+
+	"github.com/reeflective/readline/internal/core"
+)
+
+// VerifSetStdin replaces the reader from which the key loop takes user input
+// (core.Stdin), so that a harness can observe the shell each time it is about
+// to block for input. Verification builds only.
+func VerifSetStdin(r io.ReadCloser) {
+	core.Stdin = r
+}
+
+// VerifSelection returns the raw fields of the current selection, without the
+// normalisation Selection.Pos() performs. Verification builds only.
+func (rl *Shell) VerifSelection() (active, visual, visualLine bool, bpos, epos int) {
+	return core.VerifSelectionRaw(rl.selection)
+}
